@@ -408,6 +408,11 @@ func (fv *FnV) contractCall(st *State, call *ast.CallExpr, key string, fd *ast.F
 		for _, k := range fe.sortedWrites() {
 			fv.heapGet(st, k)
 			st.heap[k] = fv.fresh("H_"+k, fv.heapSort(k))
+			if hs := fv.heapSort(k); strings.HasPrefix(hs, "(Array Int Slice_") {
+				// a havocked slice-valued field still holds slices: their length is never negative
+				sl := strings.TrimSuffix(strings.TrimPrefix(hs, "(Array Int "), ")")
+				fv.decls = append(fv.decls, fmt.Sprintf("(assert (forall ((r!q Int)) (! (>= (len_%s (select %s r!q)) 0) :pattern ((select %s r!q)))))", sl, st.heap[k], st.heap[k]))
+			}
 		}
 		if fe.Allocates {
 			old := fv.heapGet(st, "$alloc")
